@@ -17,6 +17,7 @@ Local Notation scale := (Matrix.scale exactQ).
 Local Notation rotate_cs := (Matrix.rotate_cs exactQ).
 Local Notation skew_tt := (Matrix.skew_tt exactQ).
 Local Notation resolve_pct := (Matrix.resolve_pct exactQ).
+Local Notation resolve_dim := (Matrix.resolve_dim exactQ).
 Local Notation right_mat := (Matrix.right_mat exactQ).
 Local Notation origin_x := (Matrix.origin_x exactQ).
 Local Notation origin_y := (Matrix.origin_y exactQ).
@@ -116,6 +117,8 @@ Qed.
 (* --- model = spec: CSS -------------------------------------------- *)
 Lemma resolve_pct_spec d r : resolve_pct d r = spec_resolve d r.
 Proof. destruct d; reflexivity. Qed.
+Lemma resolve_dim_spec g d r : resolve_dim g d r = spec_length g d r.
+Proof. destruct d; reflexivity. Qed.
 Lemma origin_x_spec g : origin_x g = spec_origin_x g.
 Proof. unfold Matrix.origin_x, spec_origin_x. rewrite resolve_pct_spec. reflexivity. Qed.
 Lemma origin_y_spec g : origin_y g = spec_origin_y g.
@@ -125,7 +128,7 @@ Lemma right_mat_spec g f : meq (right_mat g f) (css_fun_matrix g f).
 Proof.
   destruct f; try mring.
   unfold Matrix.right_mat, css_fun_matrix.
-  rewrite (resolve_pct_spec x), (resolve_pct_spec y). mring.
+  rewrite (resolve_dim_spec g x), (resolve_dim_spec g y). mring.
 Qed.
 
 Lemma product_app l1 l2 : meq (product (l1 ++ l2)) (prod (product l1) (product l2)).
